@@ -250,6 +250,10 @@ func (e *Enc) finish(ur *UnitResult, opt runOpts) {
 		if _, ok := ur.Props[q.Name]; ok {
 			continue
 		}
+		if ps, ok := e.qProps[q.Name]; ok {
+			ur.Props[q.Name] = ps
+			continue
+		}
 		if con == nil {
 			continue
 		}
